@@ -76,8 +76,11 @@ def _pure(e) -> bool:
 
 
 class Aliases:
-    def __init__(self, fn: ast.FunctionDef, items: List[Item] = None):
+    def __init__(self, fn: ast.FunctionDef, items: List[Item] = None, linear_calls: bool = False):
+        """linear_calls: also substitute a name assigned once from an arbitrary expression when it is *used exactly once* and the use is in the
+        same block as, and after, the assignment (inlining a temporary; evaluation order of side effects is unchanged)."""
         items = items if items is not None else flatten(fn)
+        self._linear = linear_calls
         count: Dict[str, int] = {}
         val: Dict[str, ast.AST] = {}
         texts: Dict[str, set] = {}
@@ -95,6 +98,14 @@ class Aliases:
                     if isinstance(n, ast.Name):
                         count[n.id] = count.get(n.id, 0) + 2
         self.map = {n: v for n, v in val.items() if count[n] == 1 and n not in params and _pure(v)}
+        if linear_calls:
+            uses: Dict[str, int] = {}
+            for n in ast.walk(fn):
+                if isinstance(n, ast.Name) and isinstance(n.ctx, ast.Load):
+                    uses[n.id] = uses.get(n.id, 0) + 1
+            for n, v in val.items():
+                if n not in self.map and count[n] == 1 and n not in params and uses.get(n, 0) == 1:
+                    self.map[n] = v
 
     def subst(self, e, depth=0):
         if e is None or depth > 8:
